@@ -260,6 +260,23 @@ claim("C14",
       "TLA+ behaviour/iteration specification model-checked by TLC incl. liveness, real call results validated by TLC against stepwise composition and exact central-meridian oracle",
       "DESIGN.md section 4 C14")
 
+claim("C17",
+      "NTv2.tla models a grid-shift file (sub-grids as records of integers: extents in 0.001\", increments, rows/cols, four fields "
+      "as integer bi-quadratic polynomials exact in float32; the flat 16-byte record view), sub-grid choice (finest spacing, none "
+      "outside), cell location, the allowed node window, the exact four-node blend and polynomial oracles, and a cursor model of "
+      "the reads in two variants (as shipped / repaired). TLC checks ReadsOwnNodes, ReadsAroundPosition, OutsideNoValue, "
+      "FinestIsDeepest, OraclesAgree exhaustively on 11 file shapes (1-4 sub-grids, nested / disjoint / flush / overlapping) and "
+      "refutes the as-shipped cursor. The shapes are rendered as binary .gsb files; TLC plans the allowed records; the driver runs "
+      "read_ntv2_file, interpolate_ntv2 (both methods) and ntv2_2d on the clean file and on a copy NaN-poisoned outside the allowed "
+      "window; Trace_NTv2 (TLC) decides: metadata read back exactly, bilinear = exact blend, node values, linear fields, bicubic "
+      "bi-quadratic fields (1e-6 + 1e-6 x cell change), no value outside / value inside, result bits unchanged by the poisoning "
+      "(own nodes only), ntv2_2d signs and errors.",
+      "Known finding: bicubic does not reproduce bi-quadratic fields in the outermost ring of cells. Not decided: bicubic on fields "
+      "of degree > 2, positions exactly on an extent line (either choice accepted), equal-spacing overlaps. Trusted: TLC, BigFix, the "
+      "renderer harness/ntv2render.py (round-trip tested).",
+      "TLA+ file/sub-grid/cursor model checked exhaustively by TLC, TLC-planned node windows, synthetic binary files exercised on the real code incl. NaN-poisoning, TLC trace validation",
+      "DESIGN.md section 4 C17")
+
 NOT_YET = "check not built yet in this session (work in progress; see DESIGN.md section 8 for build order)"
 
 
